@@ -8,6 +8,7 @@
 mod drive;
 mod gen;
 mod ops;
+mod tbench;
 mod util;
 
 use std::path::{Path, PathBuf};
@@ -61,8 +62,37 @@ fn main() {
                 let _ = std::fs::remove_dir_all(&dir);
             }
         }
+        Some("multi") => {
+            // lsmv multi <history> <scratch> <outprefix> <k> <seed> <sep|shared>
+            let text = std::fs::read_to_string(&args[2]).expect("history file");
+            let h = ops::History::parse(&text);
+            let base = fresh_dir(Path::new(&args[3]), "multi");
+            let k: usize = args[5].parse().expect("k");
+            let seed: u64 = args[6].parse().expect("seed");
+            let shared = args[7] == "shared";
+            let mut rng = util::Rng::new(seed ^ 0xC0F1);
+            let mut cfgs = vec![h.cfg.clone()];
+            while cfgs.len() < k {
+                let mut c = gen::rand_cfg(&mut rng, h.cfg.blob);
+                c.cfilter = h.cfg.cfilter;
+                cfgs.push(c);
+            }
+            let cache_bytes = *rng.pick(&[0u64, 512, 4096, 1 << 20]);
+            let dt_cap = *rng.pick(&[0usize, 1, 2, 64]);
+            let traces = drive::run_multi(&h, &cfgs, &base, shared, cache_bytes, dt_cap);
+            for (j, t) in traces.iter().enumerate() {
+                std::fs::write(format!("{}.{j}.trace", args[4]), t).expect("write");
+            }
+            let _ = std::fs::remove_dir_all(&base);
+        }
+        Some("tbench") => {
+            let seed0: u64 = args[2].parse().expect("seed0");
+            let count: u64 = args[3].parse().expect("count");
+            let text = tbench::run(seed0, count);
+            std::fs::write(&args[4], text).expect("write");
+        }
         _ => {
-            eprintln!("usage: lsmv gen|run|batch ...");
+            eprintln!("usage: lsmv gen|run|batch|tbench ...");
             std::process::exit(2);
         }
     }
